@@ -128,6 +128,14 @@ for alg in ((8, 13) if TIER == "quick" else (8, 10, 13, 14)):
     sc = {"modules": [[{"id": 0, "objs": S.pair(k1["id"], k1) + S.pair(k2["id"], k2)}]], "ksks": {"k1": ceremony.ksk_def(k1), "k2": ceremony.ksk_def(k2)},
           "schema": schema, "request": rq}
     run("nine-bundles-revoke-schema", sc, {"alg": alg})
+# the configured TTL is what is signed, zero included
+for t_ in (0, 1):
+    k1 = ksk_for(8, idx=0)
+    z1 = zsk_for(8, idx=0)
+    rq = skrgen.honest_request(f"ttl-{t_}", NOW, 1, [[z1]], ksrxml.default_zsk_policy(), sign=True)
+    sc = {"modules": [[{"id": 0, "objs": S.pair(k1["id"], k1)}]], "ksks": {"k1": ceremony.ksk_def(k1)}, "schema": {1: {"publish": ["k1"], "sign": ["k1"], "revoke": []}},
+          "request": rq, "ttl": t_}
+    run("configured-ttl", sc, {"ttl": t_})
 # an EC KSK whose X coordinate starts with the octet a DER wrapper would carry as length, on tokens that return the point bare and wrapped
 for alg in (13, 14):
     kx = ksrxml.mk_key(P.ec_x_lenlike(alg), alg=alg, flags=257, ident="Kx")
